@@ -121,6 +121,59 @@ def _shipped_task(task):
     return acc
 
 
+# ---------------------------------------------------------------------------
+# a user-defined group whose decoder is lenient about zero padding (integers without / with extra leading zero bytes decode to the
+# same element - the group interface leaves the wire format to the group): reflection is a statement about ELEMENTS, so the
+# receiver's own element must be refused under every encoding its group's decoder accepts
+
+class LenientGroup(T.WrapGroup):
+    def bytes_to_element(self, b):
+        size = self.element_size_bytes
+        b = bytes(b).lstrip(b"\x00")
+        if len(b) > size:
+            raise ValueError("too long")
+        return self._i.bytes_to_element(b"\x00" * (size - len(b)) + b)
+
+
+def lenient_run(name, side, x, variant, restored):
+    L = T.lib()
+    base = T.get(name)
+    G = LenientGroup(base.group)
+    seeds = base.rp.seeds
+    P = L.params._Params(G, M=seeds[0], N=seeds[1], S=seeds[2])
+    ent = base.entropy(x)
+    ids = C.ids_for(side, 1)
+    s = L.S(b"pw", idSymmetric=ids[0], params=P, entropy_f=ent) if side == "S" else L.cls[side](b"pw", idA=ids[0], idB=ids[1], params=P, entropy_f=ent)
+    m = s.start()
+    if restored:
+        s = L.cls[side].from_serialized(s.serialize(), params=P)
+    own = m[1:]
+    enc = {"as-sent": own, "zero-padded": b"\x00" + own, "double-padded": b"\x00\x00" + own, "stripped": own.lstrip(b"\x00") or own}[variant]
+    label = (C.PEER[side] if side != "S" else "S").encode()
+    return T.observe(s.finish, label + enc)
+
+
+def _lenient_task(task):
+    name, side = task
+    acc = Acc()
+    inst, why = T.try_get(name)
+    if inst is None or inst.kind != "int":
+        return acc
+    for x in (range(1, inst.q) if inst.small else (5,)):
+        for restored in (False, True):
+            for variant in ("as-sent", "zero-padded", "double-padded", "stripped"):
+                got = lenient_run(name, side, x, variant, restored)
+                acc.n(evaluations=1, transitions=3, states=1)
+                acc.seen(("lenient", name, side, variant, got[0] if got[0] == "ok" else got[1]))
+                if got[0] == "ok":
+                    acc.violation("C06/%s/%s/reflection-under-lenient-decoder" % (inst.kind if inst.small else inst.name, side),
+                                  {"what": "with a user-defined group whose decoder accepts other zero paddings, finish() returns a key for the receiver's own element (%s encoding)" % variant,
+                                   "replay": {"fn": "lenient", "name": name, "side": side, "x": x, "variant": variant, "restored": restored},
+                                   "expected": "raises (ReflectionThwarted)", "observed": ("ok", "key")})
+    acc.n(traces=1)
+    return acc
+
+
 def _default_path(acc):
     L = T.lib()
     for side in "ABS":
@@ -170,6 +223,7 @@ def run(tier, seed):
                         tasks.append(("shipped", (name, side, pw, x, restored)))
     tasks.sort(key=lambda t: -(T.hint(t[1][0]).ref.esize * (50 if t[0] == "shipped" else T.hint(t[1][0]).q)))
     core.pmerge(_dispatch, tasks, acc)
+    core.pmerge(_lenient_task, [(n, sd) for n in (["T509", "T23", "Params1024"] if quick else ["T509", "T23", "T263", "T1543", "Params1024", "Params2048", "Params3072"]) for sd in "ABS"], acc)
     _default_path(acc)
     # a session left half-open while many others run must still refuse its own reflected message (long history, one process)
     from .c16 import _soak_task
@@ -188,6 +242,9 @@ def _dispatch(t):
 
 def replay(rec):
     r = T.unjson(rec["replay"])
+    if r.get("fn") == "lenient":
+        got = lenient_run(r["name"], r["side"], r["x"], r["variant"], r["restored"])
+        return ("ok", "key") if got[0] == "ok" else got
     if r.get("default_path"):
         return "default-path run (os.urandom); see observed"
     d = r["r"]
